@@ -109,14 +109,13 @@ theorem include_isolated (c : RCtx) (line : Nat) (args : Bytes) (s : RS) :
           simp only [bind, M.bind]
           refine AllRet.bind (?_ : AllRet (fun r : Unit × RS => r.2.env = s1.env) (writeM out s1)) (fun _ h => .ret _ h)
           unfold writeM
+          simp only
           split
           · exact .ret _ rfl
-          · split
-            · exact .ret _ rfl
-            · refine .call _ _ (fun r => ?_)
-              cases r with
-              | ok => exact .ret _ rfl
-              | failed n => exact .fail _
+          · refine .call _ _ (fun r => ?_)
+            cases r with
+            | ok => exact .ret _ rfl
+            | failed n => exact .fail _
         | brk e => exact .ret _ rfl
         | cont e => exact .ret _ rfl
       · exact .fail _
